@@ -304,6 +304,94 @@ func TestVerifC12(t *testing.T) {
 	// NewClient against scripted servers
 	verPool := []string{"9P2000.L", "9P2000.L.Google.7", "9P2000.L.Google.6", "9P2000.L.Google.3", "9P2000.L.Google.1", "9P2000.L.Google.0", "9P2000.L.Google.9",
 		"unknown", "9P2000", "9P2000.u", "9P2000.L.Google.", "9P2000.L.Google.x", "", "9P2000.L.Google.4294967296", "9P2000.L.Google.002"}
+	// sessions: several Tversion on ONE connection state / ONE connection
+	nsess := 60
+	if vhThorough() {
+		nsess = 600
+	}
+	sessStrs := []string{"9P2000.L", "9P2000.L.Google.7", "9P2000.L.Google.3", "9P2000.L.Google.12", "9P2000.L.Google.0", "9P2000.u", "unknown", "",
+		"9P2000.L.Google.x", "9P2000.L.Google.4294967296", "9P2000.L.Google.000000000000000000000000000002", "9P2000"}
+	sessMs := []uint32{0, 1, 12, 13, 20, 21, 28, 29, 30, 40, 64, 154, 4096, 8192, 65536, maximumLength, maximumLength + 1, 1<<32 - 1}
+	for i := 0; i < nsess; i++ {
+		k := 2 + r.Intn(4)
+		type reqT struct {
+			MSize uint32 `json:"msize"`
+			S     []int  `json:"s"`
+			s     string
+		}
+		var reqs []reqT
+		for j := 0; j < k; j++ {
+			v := sessStrs[r.Intn(len(sessStrs))]
+			reqs = append(reqs, reqT{sessMs[r.Intn(len(sessMs))], vhBytes([]byte(v)), v})
+		}
+		// white box: one connState
+		cs := &connState{server: NewServer(vh12Attacher{}), fids: map[fid]*fidRef{}, tags: map[tag]chan struct{}{}}
+		var replies []map[string]interface{}
+		var states [][2]uint32
+		for _, q := range reqs {
+			rm := (&tversion{MSize: q.MSize, Version: q.s}).handle(cs)
+			if rv, ok := rm.(*rversion); ok {
+				replies = append(replies, map[string]interface{}{"msize": rv.MSize, "version": vhBytes([]byte(rv.Version))})
+			}
+			states = append(states, [2]uint32{cs.messageSize, cs.version})
+		}
+		o.Emit(map[string]interface{}{"kind": "session", "reqs": reqs, "replies": replies, "states": states})
+		// wire: one connection, k frames with assorted tags, read replies until the connection ends
+		c, sv := net.Pipe()
+		srv := NewServer(vh12Attacher{})
+		done := make(chan struct{})
+		go func() { srv.Handle(sv, sv); close(done) }()
+		// lock step (one request in flight): concurrent Tversions would race on the connection state by design
+		var wreplies []map[string]interface{}
+		for j, q := range reqs {
+			body := vhLE32(q.MSize)
+			body = vhPutString(body, q.s)
+			tg := uint16(0xffff)
+			if j%2 == 1 {
+				tg = uint16(j)
+			}
+			frame := vhFrame(byte(msgTversion), tg, body)
+			werr := make(chan error, 1)
+			go func() {
+				c.SetWriteDeadline(time.Now().Add(3 * time.Second))
+				_, err := c.Write(frame)
+				werr <- err
+			}()
+			typ, _, rb, err := vhReadFrame(c, 3*time.Second)
+			if err != nil {
+				break
+			}
+			<-werr
+			if typ == byte(msgRversion) && len(rb) >= 6 {
+				l := int(binary.LittleEndian.Uint16(rb[4:]))
+				wreplies = append(wreplies, map[string]interface{}{"msize": binary.LittleEndian.Uint32(rb), "version": vhBytes(rb[6 : 6+l])})
+			} else {
+				wreplies = append(wreplies, map[string]interface{}{"msize": 0, "version": vhBytes([]byte(fmt.Sprintf("!type%d", typ)))})
+			}
+		}
+		c.Close()
+		<-done
+		o.Emit(map[string]interface{}{"kind": "wiresession", "reqs": reqs, "replies": wreplies})
+	}
+
+	// fixed scripts first: every length of EAGAIN chain, ended by each kind of reply (ErrVersionsExhausted needs 8 in a row)
+	eagain := vh12Reply{Kind: "err", Errno: uint32(linux.EAGAIN)}
+	fid := 100000
+	for n := 0; n <= 9; n++ {
+		for _, end := range []vh12Reply{
+			{Kind: "rversion", MSize: 8192, Version: vhBytes([]byte("9P2000.L.Google.2")), version: "9P2000.L.Google.2"},
+			{Kind: "rversion", MSize: 65536, Version: vhBytes([]byte("9P2000.u")), version: "9P2000.u"},
+			{Kind: "rversion", MSize: 1 << 20, Version: vhBytes([]byte("9P2000.L.Google.9")), version: "9P2000.L.Google.9"},
+			{Kind: "err", Errno: 5}, {Kind: "conn"}} {
+			var script []vh12Reply
+			for i := 0; i < n; i++ {
+				script = append(script, eagain)
+			}
+			script = append(script, end)
+			vh12Client(o, fid, 0, script)
+			fid++
+		}
+	}
 	ncl := 120
 	if vhThorough() {
 		ncl = 1500
